@@ -254,15 +254,24 @@ func (c *FCGIClient) writePairs(recType uint8, pairs map[string]string) error {
 	b := make([]byte, 8)
 	nn := 0
 	for k, v := range pairs {
-		m := 8 + len(k) + len(v)
-		if m > maxWrite {
-			// param data size exceed 65535 bytes"
-			vl := maxWrite - 8 - len(k)
+		// A pair goes into one record: the two encoded lengths
+		// (one byte up to 127, else four) plus name and value.
+		room := maxWrite - sizeLen(len(k)) - len(k)
+		if room < 1 {
+			// not even the name fits a record: the pair cannot be sent
+			continue
+		}
+		if sizeLen(len(v))+len(v) > room {
+			// the value is cut to what the record holds
+			vl := room - 4
+			if vl < 0 {
+				vl = 0
+			}
 			v = v[:vl]
 		}
 		n := encodeSize(b, uint32(len(k)))
 		n += encodeSize(b[n:], uint32(len(v)))
-		m = n + len(k) + len(v)
+		m := n + len(k) + len(v)
 		if (nn + m) > maxWrite {
 			w.Flush()
 			nn = 0
@@ -280,6 +289,14 @@ func (c *FCGIClient) writePairs(recType uint8, pairs map[string]string) error {
 	}
 	w.Close()
 	return nil
+}
+
+// sizeLen is the number of bytes encodeSize uses for a length.
+func sizeLen(size int) int {
+	if size > 127 {
+		return 4
+	}
+	return 1
 }
 
 func encodeSize(b []byte, size uint32) int {
